@@ -87,7 +87,8 @@ def load_known(prop):
 
 def match_known(known, r):
     for e in known:
-        if e.get("trace") == r["trace"] and (e.get("ob") in (None, r["ob"])) and (e.get("path") in (None, r["path"])):
+        if e.get("trace") == r["trace"] and (e.get("ob") in (None, r["ob"])) and (e.get("path") in (None, r["path"])) \
+                and (e.get("paths") is None or r["path"] in e["paths"]):
             return e
     return None
 
